@@ -117,6 +117,52 @@ def run(chk, repo):
             ok = match("calcsize(fmt)", t.slice.lower) is not None
             chk.ob("R13.2", SYM, "tail = response[calcsize(fmt):]", ok, r,
                    f"raw tail is {unparse(t)}")
+    # which result shape is returned: decided by exactly "was raw data
+    # requested" (data is None) and "were there formats" (args)
+    ev = Evaluator(repo, f._module)
+    fails = []
+    rows = 0
+    for data in (None, 0, 5, b"", b"xy"):
+        for args in ((), ("H",), ("H", 3)):
+            rows += 1
+            taken = []
+            for r in rets:
+                facts = path_facts(r)
+                try:
+                    if all(bool(ev.truth(ev.eval(e, {"data": data,
+                                                     "args": args}))) == t
+                           for e, t in facts):
+                        taken.append(r)
+                except (Unknown, Raised) as e:
+                    raise AnalysisError(f"R13.3: cannot fold the guard of "
+                                        f"`{unparse(r)[:40]}`: {e}")
+            if len(taken) != 1:
+                fails.append(f"data={data!r}, args={args!r}: {len(taken)} "
+                             f"returns selected")
+                continue
+            v = unparse(taken[0].value)
+            has_tail = "+" in v
+            plain = isinstance(taken[0].value, ast.Name)
+            if data is None:
+                want = "formatted"
+            elif args:
+                want = "formatted+tail"
+            else:
+                want = "raw"
+            got = "raw" if plain else ("formatted+tail" if has_tail
+                                       else "formatted")
+            if got != want:
+                fails.append(f"data={data!r}, args={args!r}: returns the "
+                             f"{got} shape, expected {want}")
+    chk.ob("R13.3", SYM, f"result shape follows the request ({rows} rows)",
+           not fails, rets[0], "; ".join(fails[:3]) or
+           "no raw data requested: the unpacked fields; raw data (even "
+           "empty or 0 bytes) and formats: fields plus the raw tail; raw "
+           "data only: the bytes")
+    from . import c11
+    chk.doc("R13.4", "datagram header carries the payload length "
+                     "(Packet.assemble: shared with C11 R11.3)")
+    c11.assemble_rules(chk, repo, "R13.4")
     # fmt reaching the decode is the fully extended one
     for r in rets:
         node = cfg.nodes_of(r)[0]
